@@ -112,6 +112,8 @@ var c17Seeds = []string{
 	// parameters outside [0,1] over series that do have several samples (one series through the grouping)
 	`quantile_over_time(1.5, {job="j"} | unwrap v [1m]) by (job)`, `quantile_over_time(7, {job="j"} | unwrap v [1m]) by ()`, `quantile_over_time(2, {job="j"} | unwrap status [1m]) without (app, status, dur, size, addr, v, msg)`,
 	`quantile_over_time(1.0000001, {job="j"} | logfmt | unwrap v [1m]) by (job)`, `sum(quantile_over_time(99, {job="j"} | unwrap bytes(size) [1m]) by (job))`, `count_over_time({job="j"}[9223372036s])`, `count_over_time({job="j"}[1ns] offset 9223372036s)`,
+	// selectors and stages whose regular expression does not compile
+	`{job=~"web("}`, `{container!~"[a-"}`, `count_over_time({job=~"("}[1m])`, `{job="j", app=~"x{2,1}"}`, `{job="j"} | drop app=~"("`, `{job="j"} | app=~"[z-a]"`, `sum(rate({job=~"\\"}[5s]))`,
 	// template functions that scan their input, with patterns that match the empty string and odd counts / widths
 	"{job=\"j\"} | line_format `{{ count \"e*\" __line__ }} {{ count \"\" __line__ }} {{ count \".*\" .app }} {{ count \"x?\" __line__ }} {{ count \"(a|)\" __line__ }} {{ count \"\\\\b\" __line__ }} {{ count \"^\" __line__ }} {{ count \"$\" __line__ }}`",
 	"{job=\"j\"} | label_format n=`{{ count \"[0-9]*\" __line__ }}`, m=`{{ regexReplaceAll \"\" __line__ \"-\" }}{{ regexReplaceAll \"x*\" .app \"$0$0\" }}{{ regexReplaceAllLiteral \"\\\\b\" __line__ \"|\" }}{{ regexReplaceAll \"(?:)\" .app \"${1}\" }}`",
@@ -344,7 +346,15 @@ func c17Run(in c17Input) (panicked, stack, errText, kind string) {
 	}
 	res, err := evalQuery(q, in.Query, in.P)
 	if err != nil {
-		return "", "", err.Error(), ""
+		// a query that was refused is asked again (the user repeats it, a dashboard retries): the second
+		// answer is an answer too -- whatever the first attempt left behind in the process
+		if in.Daemon > 0 {
+			q = dockerQuerier(newFakeDocker(c17Inventory(in)))
+		}
+		if _, err2 := evalQuery(q, in.Query, in.P); err2 != nil {
+			return "", "", err2.Error(), ""
+		}
+		return "", "", "", "ok-on-retry"
 	}
 	return "", "", "", res.Kind
 }
